@@ -275,7 +275,7 @@ SEQ_KINDS = ["tuple", "slice", "vec", "arr"]
 
 def gen_cases(ctx):
     rng = ctx.rng
-    n = ctx.scale(5000, 150000)
+    n = ctx.scale(5000, 300000)
     cases = [parse_corpus(l) for l in CORPUS]
     # ---- exhaustive: every failure point of fixed values, at every position of a short history, both builders
     fixed = [[1, {"a": [True, "x"]}, None], {"k": {"q": []}, "z": "\n"}, "s€", [], {}, 7, [[], [{}]]]
@@ -495,11 +495,40 @@ def has_failing(case):
     return any(t is None for _, t in case["items"])
 
 
+BUILDER_KINDS = ("array", "object", "rpc")
+
+
+def has_failed_insert(case):
+    """a failing value handed to ArrayParams / ObjectParams (directly, through rpc_params!, or inside a batch)"""
+    if case["kind"] == "batch":
+        return any(has_failed_insert(s) for s in case["entries"])
+    return case["kind"] in BUILDER_KINDS and has_failing(case)
+
+
+def without_failed_inserts(case):
+    """the same history with the failing inserts left out (class predicate of the known defect: the property
+    fails on the history but holds on this one)"""
+    if case["kind"] == "batch":
+        subs = []
+        for s in case["entries"]:
+            t = without_failed_inserts(s)
+            t["method"] = s["method"]
+            subs.append(t)
+        line = "batch " + " | ".join("m%s %s" % (hx(x["method"].encode("utf-8")), x["line"]) for x in subs)
+        return dict(case, entries=subs, line=line.strip())
+    if case["kind"] not in BUILDER_KINDS:
+        return dict(case)
+    keep = [i for i, (_, t) in enumerate(case["items"]) if t is not None]
+    its = [case["items"][i] for i in keep]
+    keys = None if case["keys"] is None else [case["keys"][i] for i in keep]
+    return dict(case, items=its, keys=keys, line=mk_line(case["kind"], its, keys))
+
+
 def strip_case(case):
     return {"line": case["line"], "kind": case["kind"], "tag": case.get("tag")}
 
 
-def shrink(case, impl):
+def shrink(case, impl, keep_failing):
     """drop items (non-batch) while the oracle still complains; returns the smallest failing case found"""
     if case["kind"] == "batch":
         return case
@@ -513,7 +542,9 @@ def shrink(case, impl):
                 continue
             keys = None if cur["keys"] is None else cur["keys"][:i] + cur["keys"][i + 1:]
             cand = dict(cur, items=its, keys=keys)
-            cand["line"] = mk_line(cur["kind"], [(tok, None) for tok, _ in its], keys)
+            cand["line"] = mk_line(cur["kind"], its, keys)
+            if keep_failing and not has_failed_insert(cand):
+                continue
             rc, out = vlib.sh([impl], input=cand["line"] + "\n")
             if rc == 0 and oracle(cand, out.strip().split("\n")[-1]):
                 cur, changed = cand, True
@@ -530,26 +561,34 @@ def run(ctx):
     rm = vlib.run_lines([model], lines)
     ro = vlib.run_lines([model, "old"], lines)
     same_old = sum(1 for a, o in zip(ri, ro) if a == o)
+    verdicts = [oracle(case, a) for case, a in zip(cases, ri)]
+    # classify: "poisoned by a failed insert" = fails on the history, holds on the history without the failed inserts
+    # (for a bare model/implementation difference: differs on the history, agrees on the history without them -
+    #  e.g. a failing serialiser that had only written a blank: the built text still parses back, but is not the same text)
+    suspects = [i for i, v in enumerate(verdicts) if (v or ri[i] != rm[i]) and has_failed_insert(cases[i])]
+    stripped = [without_failed_inserts(cases[i]) for i in suspects]
+    rs = vlib.run_lines([impl], [s["line"] for s in stripped])
+    rsm = vlib.run_lines([model], [s["line"] for s in stripped])
+    poisoned = set(i for i, s, r, m in zip(suspects, stripped, rs, rsm) if not oracle(s, r) and r == m)
+    ctx.evaluations += len(suspects)
     shrunk = set()
-    for case, a, b in zip(cases, ri, rm):
+    for i, (case, a, b) in enumerate(zip(cases, ri, rm)):
         ctx.count(case.get("tag") or case["kind"])
         ctx.count("kind:" + case["kind"])
-        failing = has_failing(case)
-        ctx.count("with-failing-serialiser" if failing else "all-serialisable")
+        ctx.count("with-failing-serialiser" if has_failing(case) else "all-serialisable")
         ctx.record(strip_case(case), a, nontrivial=(a.strip() != "=> none"))
-        complaints = oracle(case, a)
+        complaints = verdicts[i]
         key = None
         if complaints:
-            # a failure that needs a failing serialiser in the history is the poisoned-buffer class
-            key = KEY_POISON if failing else "params-roundtrip:" + case["kind"]
+            key = KEY_POISON if i in poisoned else "params-roundtrip:" + case["kind"]
             rep = case
             if key not in shrunk:
                 shrunk.add(key)
-                rep = shrink(case, impl)
+                rep = shrink(case, impl, keep_failing=(key == KEY_POISON))
             ctx.fail("oracle", key, strip_case(rep), "; ".join(complaints)[:600])
         if a != b:
             # the model is the REPAIRED code: on a tree without the repair it differs exactly where the oracle complains
-            dkey = key if key == KEY_POISON else "builder-model-differs:" + case["kind"]
+            dkey = KEY_POISON if i in poisoned else "builder-model-differs:" + case["kind"]
             ctx.fail("diff", dkey, strip_case(case), {"impl": a[:400], "model": b[:400]})
     ctx.extra["agrees_with_pre_repair_model"] = "%d of %d cases" % (same_old, len(cases))
     if same_old == len(cases) and any(a != b for a, b in zip(ri, rm)):
